@@ -1678,6 +1678,14 @@ class JobFloatParameterDefinitionUserInterface(OpenJDModel_v2023_09):
     def _validate_decimals_is_integer(cls, value: Any) -> Any:
         return _reject_fractional_number(value)
 
+    @validator("singleStepDelta")
+    def _validate_single_step_delta_is_finite(cls, value: Optional[float]) -> Optional[float]:
+        # "inf", "Infinity" or 1e999 are positive floats, but no step size: the value could
+        # not even be written back as JSON.
+        if value is not None and value == float("inf"):
+            raise ValueError("Value must be a finite number.")
+        return value
+
 
 class JobFloatParameterDefinition(OpenJDModel_v2023_09):
     """A Job Parameter of type float.
